@@ -171,7 +171,14 @@ func Do(wrap func(http.Handler) http.Handler, req Req, preset []HV) Resp {
 }
 
 func DoScript(wrap func(http.Handler) http.Handler, req Req, preset []HV, script func(http.ResponseWriter, *http.Request)) Resp {
-	rec := NewRec(preset)
+	return DoOn(NewRec(preset), wrap, req, script)
+}
+
+// DoOn serves the request into an existing recorder: its header map - with whatever an earlier response and the
+// outer layer left in it - is what the middleware finds as "response headers already present". Status, body and
+// counters start afresh.
+func DoOn(rec *Rec, wrap func(http.Handler) http.Handler, req Req, script func(http.ResponseWriter, *http.Request)) Resp {
+	rec.Status, rec.Sent, rec.Body, rec.NHeader, rec.NWriteH, rec.NWrite = 0, nil, nil, 0, 0, 0
 	hr := req.HTTP()
 	sp := &spy{wantReq: hr, wantW: rec, script: script}
 	wrap(sp).ServeHTTP(rec, hr)
